@@ -182,6 +182,32 @@ func RunC15(s *Scenario, ev *Evidence, trace bool) (viol []Finding, tr []string)
 			return viol, w.Trace
 		}
 	}
+	// the other export mode (und export --for-zero-height) carries the same four modules' state: the preparation for a
+	// zero-height genesis touches staking, distribution and slashing only
+	if stateZ, err := w.C.ExportZeroHeight(); err != nil {
+		fail("", "export for zero height failed: %v", err)
+		return viol, w.Trace
+	} else if secZ, err := moduleSections(stateZ); err == nil {
+		w.Class("c15.export-for-zero-height")
+		for _, m := range c15Modules {
+			if secA[m] != secZ[m] {
+				fail("", "the export for zero height gives a different %s document than the plain export of the same state (%d vs %d bytes)", m, len(secZ[m]), len(secA[m]))
+				return viol, w.Trace
+			}
+		}
+		if z, err := lab.ImportAppState(s.Gen, lab.NodeOpts{DB: "mem"}, stateZ, w.C.Now); err != nil {
+			fail("", "initialising a fresh chain from the zero-height export failed: %v", err)
+			return viol, w.Trace
+		} else {
+			if d := diffDumps(w.C.Dump(w.C.Ctx(), c15Modules...), z.Dump(z.Ctx(), c15Modules...)); len(d) > 0 {
+				fail("", "the chain imported from the zero-height export differs from the exporting chain at %s", strings.Join(trim(d, 6), ", "))
+			}
+			z.Close()
+			if len(viol) > 0 {
+				return viol, w.Trace
+			}
+		}
+	}
 	// the same subsequent transactions have the same effects on both chains
 	w.AddHooks(Hooks{
 		Prop: "C15-mirror",
